@@ -327,10 +327,28 @@ impl<T: Send> UnboundedShared<T> {
     }
   }
 
+  /// True if a pop would succeed right now; callers hold the lock.
+  fn has_item_locked(&self, c: &ConsumerState<T>) -> bool {
+    !c.reclaimed.is_empty() || unsafe { !(*c.tail).next.load(Ordering::Acquire).is_null() }
+  }
+
   /// Runs a handoff session if enabled and profitable; callers hold the lock.
+  ///
+  /// With the kill-switch off a publish wakes a single waiter however many
+  /// items it carries, so a consumer that leaves items behind passes the wake
+  /// on to the next waiter.
   fn maybe_handoff(&self, c: &mut ConsumerState<T>, wakes: &mut WakeList) {
-    if EAGER_HANDOFF && !c.waiters.is_empty() {
+    if c.waiters.is_empty() {
+      return;
+    }
+    if EAGER_HANDOFF {
       self.handoff_session(c, wakes);
+      self.store_waiter_count(c);
+    } else if self.has_item_locked(c) {
+      if let Some(e) = c.waiters.pop_front() {
+        e.cell.state.store(WAITER_NOTIFIED, Ordering::Release);
+        wakes.0.push(e.wake);
+      }
       self.store_waiter_count(c);
     }
   }
